@@ -241,6 +241,9 @@ func (m c14) Run(c *core.Ctx) {
 	var lastSrc string
 	var lastMods map[string]string
 	for i := 0; i < n; i++ {
+		if stopExploring(c) {
+			break
+		}
 		o.Modules = c.Rng.Intn(3)
 		o.Params = c.Rng.Intn(2)
 		gp := gen.Generate(c.Rng, o)
